@@ -334,7 +334,7 @@ func TestVerif_C20(t *testing.T) {
 		t.Fatal(err)
 	}
 	names := []string{"a", "b", "ab", "A", "Ab"}
-	nTrees := kit.Pick(8, 40)
+	nTrees := kit.Pick(8, 30)
 	perTree := kit.Pick(64, 200)
 	type tree struct {
 		entries []vEntry
@@ -454,8 +454,8 @@ func TestVerif_C20(t *testing.T) {
 	} else {
 		res.Count("mknod_not_permitted_devices_skipped", 1)
 	}
-	nSpecial := kit.Pick(6, 30)
-	perSpecial := kit.Pick(20, 60)
+	nSpecial := kit.Pick(6, 24)
+	perSpecial := kit.Pick(20, 50)
 	for si := 0; si < nSpecial; si++ {
 		var entries []vEntry
 		for len(entries) < 4 {
